@@ -681,7 +681,9 @@ fn cli_sweep(tier: Tier) -> Sweep {
             // front end, so a rejected file is rejected with the same diagnostics, and the two agree with
             // each other byte for byte.
             let diverges = name.contains("girard") || name.contains("infinite");
-            let run = if diverges { None } else { Some(launch(&["run", &path], Duration::from_secs(20))) };
+            // (thorough tier: of the 65 536 two-byte files every eighth is also given to the two other forms)
+            let other_forms = tier == Tier::Quick || !name.starts_with("bytes-") || idx % 8 == 0;
+            let run = if diverges || !other_forms { None } else { Some(launch(&["run", &path], Duration::from_secs(20))) };
             if let Some(r) = &run {
                 count!("launches", 2);
                 let b = launch(&[&path], Duration::from_secs(20));
